@@ -14,7 +14,7 @@ Open Scope N_scope.
 Inductive tok := Ch (c : N) | Var (nm : str).
 
 Definition tok_ws (t : tok) : bool := match t with Ch c => is_ws c | Var _ => false end.
-Definition tok_nl (t : tok) : bool := match t with Ch c => c =? 10 | Var _ => false end.
+Definition tok_nl (t : tok) : bool := match t with Ch c => is_nl c | Var _ => false end.
 
 Fixpoint lstrip_t (ts : list tok) : list tok :=
   match ts with [] => [] | t :: r => if tok_ws t then lstrip_t r else ts end.
